@@ -46,6 +46,8 @@ pub struct Profile {
     pub w_insert_select: u64,
     pub w_delete: u64,
     pub w_select: u64,
+    /// `DROP TABLE a, b` (one statement, several tables).
+    pub multi_drop: bool,
     pub w_order_query: u64,
     pub w_range_query: u64,
     /// Aggregates, GROUP BY, DISTINCT and two-table joins as raw SQL (twin comparison only).
@@ -94,6 +96,7 @@ impl Profile {
             w_insert_select: 3,
             w_delete: 14,
             w_select: 10,
+            multi_drop: false,
             w_order_query: 0,
             w_range_query: 0,
             w_raw_query: 0,
@@ -204,6 +207,16 @@ impl<'a> Gen<'a> {
         // primary keys: mostly fresh, sometimes duplicates of earlier keys
         let dup = self.rng.chance(self.prof.dup_key_pct, 100);
         match ty {
+            // the ends of the type's range (bounds next to them are where off-by-one and
+            // saturating arithmetic on bounds go wrong)
+            Ty::Int | Ty::BigInt | Ty::SmallInt if self.rng.chance(1, 25) => {
+                let (lo, hi) = match ty {
+                    Ty::SmallInt => (i16::MIN as i64, i16::MAX as i64),
+                    Ty::Int => (i32::MIN as i64, i32::MAX as i64),
+                    _ => (i64::MIN + 1, i64::MAX),
+                };
+                Val::Int(*self.rng.pick(&[hi, hi, hi - 1, lo, lo + 1]))
+            }
             Ty::Int | Ty::BigInt | Ty::SmallInt => {
                 if dup {
                     Val::Int(self.rng.range(0, self.next_id.max(1)))
@@ -350,10 +363,15 @@ impl<'a> Gen<'a> {
                         if !donors.is_empty() {
                             // a key near the donor's median key: existing or a neighbour
                             let v = donors[self.rng.usize(donors.len())].clone();
-                            borrowed = Some(match (&v, self.rng.usize(3)) {
-                                (Val::Int(k), 1) => Val::Int(k + 1),
-                                _ => v,
-                            });
+                            // (keys at the ends of a type's range stay in their own table:
+                            // they need not fit the borrower's key type)
+                            let far = matches!(&v, Val::Int(k) if k.abs() > 30_000);
+                            if !far {
+                                borrowed = Some(match (&v, self.rng.usize(3)) {
+                                    (Val::Int(k), 1) => Val::Int(k + 1),
+                                    _ => v,
+                                });
+                            }
                         }
                     }
                     match borrowed {
@@ -479,12 +497,20 @@ impl<'a> Gen<'a> {
                 let v = rows[g.rng.usize(rows.len())][pk].clone();
                 // present key, or a neighbour (absent / below / above)
                 match (&v, g.rng.usize(4)) {
-                    (Val::Int(i), 1) => Val::Int(i + 1),
-                    (Val::Int(i), 2) => Val::Int(i - 1),
+                    (Val::Int(i), 1) => Val::Int(i.saturating_add(1)),
+                    (Val::Int(i), 2) => Val::Int(i.saturating_sub(1)),
                     _ => v,
                 }
             } else {
                 match c.ty {
+                    Ty::Int | Ty::BigInt | Ty::SmallInt if g.rng.chance(1, 8) => {
+                        let (lo, hi) = match c.ty {
+                            Ty::SmallInt => (i16::MIN as i64, i16::MAX as i64),
+                            Ty::Int => (i32::MIN as i64, i32::MAX as i64),
+                            _ => (i64::MIN + 1, i64::MAX),
+                        };
+                        Val::Int(*g.rng.pick(&[hi, hi, hi - 1, lo, lo + 1]))
+                    }
                     Ty::Int | Ty::BigInt | Ty::SmallInt => Val::Int(g.rng.range(-10, 1010)),
                     _ => g.key_val(c.ty),
                 }
@@ -636,7 +662,21 @@ impl<'a> Gen<'a> {
             }
             p.sql()
         };
-        let shape = self.rng.usize(23);
+        let shape = self.rng.usize(24);
+        if shape == 23 {
+            // a guard on the key next to an expression that fails where the guard is false
+            // (on disk the guard is evaluated in the scan, before the rest of the condition)
+            if !int_ty(ak.ty) {
+                return None;
+            }
+            let c = self.rng.usize(4) as i64 - 1;
+            return Some(Stmt::Raw(format!(
+                "SELECT * FROM {t} WHERE {k} > {c} AND {d} % {k} = 0",
+                t = a.name,
+                k = ak.name,
+                d = 6 + self.rng.usize(20)
+            )));
+        }
         if shape == 22 {
             // join / semi join on columns of different numeric kinds (`=` converts; a plan that
             // makes them hash or merge keys must agree with one that evaluates `=`)
@@ -1118,6 +1158,10 @@ impl<'a> Gen<'a> {
             } else if !self.model.views.is_empty() && self.rng.chance(1, 3) {
                 let v = self.model.views.keys().next().unwrap().clone();
                 Stmt::DropTable { name: v }
+            } else if self.prof.multi_drop && self.model.tables.len() >= 2 && self.rng.chance(1, 3) {
+                // one statement, two tables
+                let other = self.model.tables.keys().find(|n| **n != table).unwrap().clone();
+                Stmt::DropTable { name: format!("{table}, {other}") }
             } else {
                 Stmt::DropTable { name: table }
             }
@@ -1192,11 +1236,13 @@ impl<'a> Gen<'a> {
                 Stmt::Select(q)
             }
         } else if take!(p.w_raw_query) {
+            // (not the key: keys may sit at the ends of the INT range, where a sum overflows)
             let ints: Vec<String> = def
                 .cols
                 .iter()
-                .filter(|c| c.ty == Ty::Int)
-                .map(|c| c.name.clone())
+                .enumerate()
+                .filter(|(i, c)| c.ty == Ty::Int && Some(*i) != def.pk)
+                .map(|(_, c)| c.name.clone())
                 .collect();
             let any = def.cols[self.rng.usize(def.cols.len())].name.clone();
             let arm = self.rng.usize(9);
@@ -1259,11 +1305,13 @@ impl<'a> Gen<'a> {
         for _ in 0..n {
             let Some(t) = self.pick_table() else { break };
             let def = self.model.tables[&t].0.clone();
+            // (not the key: keys may sit at the ends of the INT range, where a sum overflows)
             let ints: Vec<String> = def
                 .cols
                 .iter()
-                .filter(|c| c.ty == Ty::Int)
-                .map(|c| c.name.clone())
+                .enumerate()
+                .filter(|(i, c)| c.ty == Ty::Int && Some(*i) != def.pk)
+                .map(|(_, c)| c.name.clone())
                 .collect();
             // tables with an INT primary key (joins on them are planned as merge joins on disk)
             let pk_tables: Vec<(String, String)> = self
